@@ -3,8 +3,8 @@
    PackRoundtripMol / PackLayout / PackElements / PackProofs / PackRxn / PackRxnLen / PackV0 / F16Proofs. *)
 From Coq Require Import ZArith List Bool.
 From Model Require Import PyBase Graph StereoRegistry Pack PackSpec PackSpecV0 PackApi PackRxnApi PackStereo PackStereoSpec PackMol F16.
-From Gen Require Import Elements.
-From Proofs Require Import PackBits PackRoundtrip PackRoundtripGraph PackRoundtripMol PackLayout PackElements PackApiProofs PackProofs PackRxn PackRxnLen PackV0 PackV0Unpack PackStereoProofs PackStereoDisjoint PackApiRegistry PackMolProofs PackApiExt F16Proofs.
+From Gen Require Import Elements PackSpecGen.
+From Proofs Require Import PackBits PackRoundtrip PackRoundtripGraph PackRoundtripMol PackLayout PackElements PackApiProofs PackProofs PackRxn PackRxnLen PackV0 PackV0Unpack PackStereoProofs PackStereoDisjoint PackApiRegistry PackMolProofs PackApiExt PackSpecGenProofs F16Proofs.
 Import ListNotations.
 Open Scope Z_scope.
 
@@ -398,3 +398,37 @@ Theorem C10_mc_roundtrip_example :
   end = true.
 Proof. exact mc_roundtrip_example. Qed.
 Print Assumptions C10_mc_roundtrip_example.
+
+(* TIE TO THE SOURCE TEXT (coq/gen/PackSpecGen.v is regenerated on every run by tools/gen_packspec.py, fail closed):
+   the `N bit - ...` lines of the published format specification -- three copies in the sources, required identical --
+   are the widths of the fields of the declarative layout (header, atom record, connection entry, bond order, cis/trans
+   record), field by field *)
+Theorem C10_spec_widths :
+  (forall ac ct, bits_of 8 2 ++ bits_of 12 ac ++ bits_of 12 ct = concat (header_fields ac ct) /\ widths (header_fields ac ct) = spec_header_widths) /\
+  (forall a, length (pa_xy a) = 4%nat -> atom_bits a = concat (atom_fields a) /\ widths (atom_fields a) = spec_atom_widths) /\
+  (forall m1 m2, widths [bits_of 12 m1 ++ bits_of 12 m2] = spec_conn_widths) /\
+  (forall o, widths [bits_of 3 o] = spec_order_widths) /\
+  (forall t, ct_bits t = concat (ct_fields t) /\ widths (ct_fields t) = spec_cis_trans_widths).
+Proof. exact spec_widths. Qed.
+Print Assumptions C10_spec_widths.
+
+(* the constants and branch tables of the hand written model are those read from the sources: version byte, unknown
+   hydrogens byte, the four stereo nibbles of the packer with their conditions, the if/elif chain of the decoder, the three
+   limits of the `if check:` block, the accepted version bytes, the reaction header byte, the size of the `seen` table *)
+Theorem C10_source_constants :
+  (forall ac ct, hd 0 (header_bytes ac ct) = gen_version) /\
+  hcr_field None (-4) false = gen_h_none_byte /\
+  (forall st ngb, stereo_bits st ngb = stereo_bits_gen st ngb) /\
+  (forall s, stereo_of_nibble s = eval_chain gen_unpack_stereo_chain gen_unpack_stereo_else s) /\
+  (forall m, mol_pack_check m = mol_pack_check_gen m) /\
+  (forall v, ((v =? 0) || (v =? 2)) = existsb (Z.eqb v) gen_accepted_versions) /\
+  rxn_pack [] [] [] = Ok [gen_rxn_header; 0; 0; 0] /\
+  (forall a, atom_ok a = true -> pa_n a < gen_seen_size).
+Proof. exact source_constants. Qed.
+Print Assumptions C10_source_constants.
+
+Theorem C10_h_none_decode :
+  forallb (fun e => option_eqb Z.eqb (ua_h (decode_atom 0 0 0 0 0 0 0 0 e))
+                                     (if Z.shiftr e 5 =? gen_h_none_value then None else Some (Z.shiftr e 5))) (zrange 0 256) = true.
+Proof. exact h_decode_sweep. Qed.
+Print Assumptions C10_h_none_decode.
